@@ -103,36 +103,40 @@ def pureBuiltin (id : String) (s : VM) : Option (VM × Res) :=
   | "where" => some (bWhere s)
   | _ => cmapBuiltin id s
 
-/-- `bReadstring` -/
-def bReadstring (s : State) : State × Res :=
-  match s.vm.stack with
+/-- `bReadstring` on the parts of the state it touches: data, scanner -/
+def readstringCore (vm : VM) (sc : Scanner) (scannerDepth : Nat) : VM × Scanner × Res :=
+  match vm.stack with
   | buf :: _ :: rest =>
     match buf with
     | .str r o l =>
-      let s1 := setStack s rest
-      if s1.scannerDepth == 0 then (s1, .err (.panic "readstring: no scanner")) else
-      let (s2, r1) := withScanner s1 Scan.next
+      let vm1 := { vm with stack := rest }
+      if scannerDepth == 0 then (vm1, sc, .err (.panic "readstring: no scanner")) else
+      let (r1, sc2) := Scan.next sc
       let stop : Option Err := match r1 with
         | .error .eof => none
         | .error e => some e
         | .ok _ => none
       match stop with
-      | some e => (s2, .err e)
+      | some e => (vm1, sc2, .err e)
       | none =>
-        let (s3, r2) := withScanner s2 (Scan.readN l [])
+        let (r2, sc3) := Scan.readN l [] sc2
         match r2 with
-        | .error e => (s3, .err e)
+        | .error e => (vm1, sc3, .err e)
         | .ok (bytes, e?) =>
-          let s4 := { s3 with vm := s3.vm.setCell r (.bytes (writeAt (s3.vm.getBytes r) o bytes)) }
+          let vm4 := vm1.setCell r (.bytes (writeAt (vm1.getBytes r) o bytes))
           let bad : Option Err := match e? with
             | some .eof => none
             | some e => some e
             | none => none
           match bad with
-          | some e => (s4, .err e)
-          | none => okS (setStack s4 (.bool (bytes.length == l) :: .str r o bytes.length :: rest))
-    | _ => psErrS s "typecheck"
-  | _ => psErrS s "stackunderflow"
+          | some e => (vm4, sc3, .err e)
+          | none => ({ vm4 with stack := .bool (bytes.length == l) :: .str r o bytes.length :: rest }, sc3, .ok)
+    | _ => (vm, sc, .err (.ps "typecheck"))
+  | _ => (vm, sc, .err (.ps "stackunderflow"))
+
+def bReadstring (s : State) : State × Res :=
+  let p := readstringCore s.vm s.scanner s.scannerDepth
+  ({ s with vm := p.1, scanner := p.2.1 }, p.2.2)
 
 /-- the interpreter's view of a scanned token: string literals get a fresh store -/
 def objOfTok (s : State) : Scan.Tok → State × Obj
@@ -150,7 +154,7 @@ def execOne : Nat → (maxOps : Nat) → State → Obj → Bool → State × Res
     if execProc then
       if s.execDepth ≥ execDepthLimit then psErrS s "execstackoverflow"
       else
-        let (s', r) := execBody fuel m { s with execDepth := s.execDepth + 1 } obj true
+        let (s', r) := execBody fuel m { s with execDepth := s.execDepth + 1, hiDepth := max s.hiDepth (s.execDepth + 1) } obj true
         ({ s' with execDepth := s'.execDepth - 1 }, r)
     else execBody fuel m s obj false
 
@@ -191,7 +195,7 @@ def execTail : Nat → (maxOps : Nat) → State → Obj → Bool → State × Re
         | .err (.ps name) =>
           let level := s1.errors.length
           if level < errorNestingLimit then
-            let s2 := { s1 with errors := name :: s1.errors }
+            let s2 := { s1 with errors := name :: s1.errors, hiErrors := max s1.hiErrors (level + 1) }
             let (s3, r3) :=
               match s2.vm.dictGet s2.vm.roots.errorDict name with
               | some handler => execOne fuel m s2 handler true
